@@ -18,11 +18,9 @@ package raft
 import (
 	"bytes"
 	"context"
-	"encoding/hex"
 	"encoding/json"
 	"fmt"
 	"sort"
-	"strconv"
 	"strings"
 	"testing"
 	"time"
@@ -32,204 +30,12 @@ import (
 	"github.com/ipfs/ipfs-cluster/state/dsstate"
 
 	hraft "github.com/hashicorp/raft"
-	cid "github.com/ipfs/go-cid"
 	logging "github.com/ipfs/go-log/v2"
-	peer "github.com/libp2p/go-libp2p-core/peer"
 	protocol "github.com/libp2p/go-libp2p-core/protocol"
 	rpc "github.com/libp2p/go-libp2p-gorpc"
 	libp2praft "github.com/libp2p/go-libp2p-raft"
-	multiaddr "github.com/multiformats/go-multiaddr"
-	mh "github.com/multiformats/go-multihash"
 	codec "github.com/ugorji/go/codec"
 )
-
-// ---------------------------------------------------------------- universes
-var (
-	vC08LCids  []cid.Cid
-	vC08LPeers []peer.ID
-	vC08LAddrs []multiaddr.Multiaddr
-)
-
-var vC08LNames = map[string]string{}
-var vC08LNameDefs []string
-
-func vC08LIntern(s string) {
-	if _, ok := vC08LNames[s]; ok || len(s) < 8 {
-		return
-	}
-	n := "u" + strconv.Itoa(len(vC08LNames))
-	vC08LNameDefs = append(vC08LNameDefs, "Definition "+n+" := "+vC08LStr(s)+".")
-	vC08LNames[s] = n
-}
-
-func vC08LInit() {
-	if len(vC08LCids) > 0 {
-		return
-	}
-	sum := func(s string, code uint64) mh.Multihash {
-		h, err := mh.Sum([]byte(s), code, -1)
-		if err != nil {
-			panic(err)
-		}
-		return h
-	}
-	vC08LCids = []cid.Cid{
-		cid.NewCidV0(sum("l0", mh.SHA2_256)),
-		cid.NewCidV0(sum("l1", mh.SHA2_256)),
-		cid.NewCidV1(cid.Raw, sum("l2", mh.SHA2_256)),
-		cid.NewCidV1(cid.DagProtobuf, sum("l3", mh.SHA2_256)),
-		cid.NewCidV1(cid.DagCBOR, sum("l4", mh.SHA2_512)),
-		cid.NewCidV1(cid.Raw, sum("l5-identity", mh.IDENTITY)),
-		cid.NewCidV0(sum("l6", mh.SHA2_256)),
-		cid.NewCidV1(cid.DagProtobuf, sum("l7", mh.SHA3_256)),
-	}
-	for i := 0; i < 3; i++ {
-		vC08LPeers = append(vC08LPeers, peer.ID(sum("lpeer"+strconv.Itoa(i), mh.SHA2_256)))
-	}
-	for i := 0; i < 3; i++ {
-		key := append([]byte{0x08, 0x01, 0x12, 0x20}, []byte(sum("lkey"+strconv.Itoa(i), mh.SHA2_256))[2:]...)
-		h, err := mh.Sum(key, mh.IDENTITY, -1)
-		if err != nil {
-			panic(err)
-		}
-		vC08LPeers = append(vC08LPeers, peer.ID(h))
-	}
-	for _, s := range []string{"/ip4/10.1.2.3/tcp/4001/p2p/" + peer.Encode(vC08LPeers[0]), "/dns4/cluster.example.org/tcp/443/p2p/" + peer.Encode(vC08LPeers[3]), "/ip4/127.0.0.1/tcp/4001"} {
-		m, err := multiaddr.NewMultiaddr(s)
-		if err != nil {
-			panic(err)
-		}
-		vC08LAddrs = append(vC08LAddrs, m)
-	}
-	for _, c := range vC08LCids {
-		vC08LIntern(c.String())
-	}
-	for _, p := range vC08LPeers {
-		vC08LIntern(peer.Encode(p))
-	}
-	for _, a := range vC08LAddrs {
-		vC08LIntern(a.String())
-	}
-}
-
-func vC08LClamp(i, n int) int {
-	if n <= 0 {
-		return 0
-	}
-	if i < 0 {
-		i = -i
-	}
-	return i % n
-}
-
-// ---------------------------------------------------------------- Coq printing (terms of Model/C08_Codec.v)
-func vC08LHeader() string {
-	return "From V Require Import Base.Common Base.C08_Str Model.C08_Codec Model.C08_Query Model.C08_Status Base.C08_Schema Model.C08_Fmap Model.C08_Equals Model.C08_Wire Model.C08_Reuse Model.C08_Check.\nOpen Scope string_scope.\nOpen Scope N_scope.\n" +
-		strings.Join(vC08LNameDefs, "\n")
-}
-
-func vC08LStr(s string) string {
-	if n, ok := vC08LNames[s]; ok {
-		return n
-	}
-	plain := true
-	for i := 0; i < len(s); i++ {
-		if s[i] < 0x20 || s[i] > 0x7e {
-			plain = false
-			break
-		}
-	}
-	if plain {
-		return "\"" + strings.ReplaceAll(s, "\"", "\"\"") + "\""
-	}
-	bs := make([]string, len(s))
-	for i := 0; i < len(s); i++ {
-		bs[i] = strconv.Itoa(int(s[i]))
-	}
-	return "(sb [" + strings.Join(bs, ";") + "])"
-}
-
-func vC08LZ(i int64) string { return "(" + strconv.FormatInt(i, 10) + ")%Z" }
-
-func vC08LTokPeer(b []byte) string {
-	if len(b) == 0 {
-		return "TEmpty"
-	}
-	if p, err := peer.IDFromBytes(b); err == nil {
-		return "(TOk " + vC08LStr(peer.Encode(p)) + ")"
-	}
-	return "(TBad " + vC08LStr(hex.EncodeToString(b)) + ")"
-}
-
-func vC08LCid(c cid.Cid) string {
-	if !c.Defined() {
-		return "None"
-	}
-	return "(Some " + vC08LStr(c.String()) + ")"
-}
-
-func vC08LTime(t time.Time) string {
-	if t.IsZero() {
-		return "None"
-	}
-	return fmt.Sprintf("(Some (%s, %d))", vC08LZ(t.Unix()), t.Nanosecond())
-}
-
-func vC08LPeerList(ps []peer.ID) string {
-	out := make([]string, len(ps))
-	for i, p := range ps {
-		out[i] = vC08LTokPeer([]byte(p))
-	}
-	return cqList(out)
-}
-
-func vC08LPinTerm(p *api.Pin) string {
-	o := &p.PinOptions
-	keys := make([]string, 0, len(o.Metadata))
-	for k := range o.Metadata {
-		keys = append(keys, k)
-	}
-	sort.Strings(keys)
-	meta := make([]string, len(keys))
-	for i, k := range keys {
-		meta[i] = "(" + vC08LStr(k) + ", " + vC08LStr(o.Metadata[k]) + ")"
-	}
-	origs := make([]string, len(o.Origins))
-	for i, a := range o.Origins {
-		if a == nil {
-			origs[i] = "\"<nil>\""
-		} else {
-			origs[i] = vC08LStr(a.String())
-		}
-	}
-	ref := "None"
-	if p.Reference != nil {
-		ref = "(Some " + vC08LCid(*p.Reference) + ")"
-	}
-	opts := fmt.Sprintf("(mk_opts %s %s %s %s %d %s %s %s %s %s)", vC08LZ(int64(o.ReplicationFactorMin)), vC08LZ(int64(o.ReplicationFactorMax)),
-		vC08LStr(o.Name), vC08LZ(int64(o.Mode)), o.ShardSize, vC08LPeerList(o.UserAllocations), vC08LTime(o.ExpireAt),
-		cqList(meta), vC08LCid(o.PinUpdate), cqList(origs))
-	return fmt.Sprintf("(mk_pin %s %s %d %s %s %s)", opts, vC08LCid(p.Cid), uint64(p.Type), vC08LPeerList(p.Allocations), vC08LZ(int64(p.MaxDepth)), ref)
-}
-
-// ---------------------------------------------------------------- JSON input
-type vC08LPinIn struct {
-	Rmin   int64      `json:"rmin"`
-	Rmax   int64      `json:"rmax"`
-	Name   []byte     `json:"name"`
-	Mode   int        `json:"mode"`
-	Shard  uint64     `json:"shard"`
-	UA     []int      `json:"ua"`
-	Exp    []int64    `json:"exp"`    // [] = zero time, [sec, nsec]
-	Meta   [][][]byte `json:"meta"`   // list of [key, value]
-	Update int        `json:"update"` // cid index, -1 = undefined
-	Orig   []int      `json:"orig"`
-	Cid    int        `json:"cid"` // -1 = undefined
-	Type   uint64     `json:"type"`
-	Allocs []int      `json:"allocs"`
-	Depth  int64      `json:"depth"`
-	Ref    []int      `json:"ref"` // [] = nil pointer, [i]
-}
 
 type vC08LEntry struct {
 	T   int        `json:"t"` // LogOpType: 1 pin, 2 unpin, anything else is ignored by ApplyTo
@@ -239,170 +45,6 @@ type vC08LEntry struct {
 type vC08LCase struct {
 	Kind string       `json:"kind"` // "logop" | "onto"
 	Seq  []vC08LEntry `json:"seq"`
-}
-
-func vC08LCidOf(i int) cid.Cid {
-	if i < 0 {
-		return cid.Undef
-	}
-	return vC08LCids[vC08LClamp(i, len(vC08LCids))]
-}
-
-func (in *vC08LPinIn) build() *api.Pin {
-	p := &api.Pin{
-		PinOptions: api.PinOptions{
-			ReplicationFactorMin: int(in.Rmin),
-			ReplicationFactorMax: int(in.Rmax),
-			Name:                 string(in.Name),
-			Mode:                 api.PinMode(in.Mode),
-			ShardSize:            in.Shard,
-			PinUpdate:            vC08LCidOf(in.Update),
-		},
-		Cid:      vC08LCidOf(in.Cid),
-		Type:     api.PinType(in.Type),
-		MaxDepth: api.PinDepth(in.Depth),
-	}
-	if len(in.Exp) >= 2 {
-		ns := in.Exp[1]
-		if ns < 0 {
-			ns = -ns
-		}
-		p.ExpireAt = time.Unix(in.Exp[0], ns%1000000000)
-	}
-	for _, i := range in.UA {
-		p.UserAllocations = append(p.UserAllocations, vC08LPeers[vC08LClamp(i, len(vC08LPeers))])
-	}
-	for _, i := range in.Allocs {
-		p.Allocations = append(p.Allocations, vC08LPeers[vC08LClamp(i, len(vC08LPeers))])
-	}
-	if len(in.Meta) > 0 {
-		p.Metadata = map[string]string{}
-		for _, kv := range in.Meta {
-			if len(kv) >= 2 {
-				p.Metadata[string(kv[0])] = string(kv[1])
-			}
-		}
-	}
-	for _, i := range in.Orig {
-		p.Origins = append(p.Origins, vC08LAddrs[vC08LClamp(i, len(vC08LAddrs))])
-	}
-	if len(in.Ref) > 0 {
-		c := vC08LCidOf(in.Ref[0])
-		p.Reference = &c
-	}
-	return p
-}
-
-// ---------------------------------------------------------------- generator
-var vC08LStrings = []string{"a", "name", "with space", "k=v&x", "ünï", "日本", "\"q\"", "first entry", "x/y?z#w", "tab\there"}
-var vC08LKeys = []string{"a", "b", "owner", "tier", "", "ü", "key with space"}
-
-// one pin; rich: (almost) every optional field set; otherwise (almost) every optional field left empty
-func vC08LGenPin(r *vRand, rich bool, wild bool) vC08LPinIn {
-	set := func() bool {
-		if rich {
-			return r.chance(88)
-		}
-		return r.chance(12)
-	}
-	p := vC08LPinIn{Cid: r.intn(len(vC08LCids)), Update: -1, UA: []int{}, Exp: []int64{}, Orig: []int{}, Allocs: []int{}, Ref: []int{}}
-	if set() {
-		p.Rmin = int64(r.rng(1, 4))
-		if r.chance(15) {
-			p.Rmin = -1
-		}
-	}
-	if set() {
-		p.Rmax = int64(r.rng(1, 6))
-		if r.chance(15) {
-			p.Rmax = -1
-		}
-	}
-	if set() {
-		p.Name = []byte(vC08LStrings[r.intn(len(vC08LStrings))])
-	}
-	if set() {
-		p.Shard = []uint64{1024, 1, 1 << 30, 1<<64 - 1}[r.intn(4)]
-	}
-	if set() {
-		for i, n := 0, r.rng(1, 3); i < n; i++ {
-			p.UA = append(p.UA, r.intn(len(vC08LPeers)))
-		}
-	}
-	if set() {
-		switch r.intn(4) {
-		case 0:
-			p.Exp = []int64{1600000000 + int64(r.intn(400000000)), 0}
-		case 1:
-			p.Exp = []int64{1600000000 + int64(r.intn(400000000)), int64(r.rng(1, 999999999))}
-		case 2:
-			p.Exp = []int64{[]int64{1, -1, 86400, 253402300799, 4102444800}[r.intn(5)], 0}
-		default:
-			p.Exp = []int64{0, int64(r.intn(2))} // the epoch second: stored as "no expiry"
-		}
-	}
-	if set() {
-		used := map[int]bool{}
-		for i, n := 0, r.rng(1, 3); i < n; i++ {
-			k := r.intn(len(vC08LKeys))
-			if used[k] {
-				continue
-			}
-			used[k] = true
-			v := ""
-			if r.chance(85) {
-				v = vC08LStrings[r.intn(len(vC08LStrings))]
-			}
-			p.Meta = append(p.Meta, [][]byte{[]byte(vC08LKeys[k]), []byte(v)})
-		}
-	}
-	if set() {
-		p.Update = r.intn(len(vC08LCids))
-	}
-	if set() {
-		for i, n := 0, r.rng(1, 3); i < n; i++ {
-			p.Allocs = append(p.Allocs, r.intn(len(vC08LPeers)))
-		}
-	}
-	// pin types with the depths and references the code base gives them; a direct pin has MaxDepth 0 (empty on the wire)
-	switch x := r.intn(100); {
-	case x < 50:
-		p.Type = uint64(api.DataType)
-		if rich && r.chance(75) {
-			p.Mode, p.Depth = int(api.PinModeRecursive), -1
-		} else {
-			p.Mode, p.Depth = int(api.PinModeDirect), 0
-		}
-	case x < 62:
-		p.Type, p.Depth, p.Ref = uint64(api.MetaType), 0, []int{r.intn(len(vC08LCids))}
-	case x < 74:
-		p.Type, p.Depth, p.Ref = uint64(api.ClusterDAGType), 0, []int{r.intn(len(vC08LCids))}
-	case x < 92:
-		p.Type, p.Depth = uint64(api.ShardType), int64(r.rng(1, 2))
-		if set() {
-			p.Ref = []int{r.intn(len(vC08LCids))}
-		}
-	default:
-		p.Type, p.Depth = uint64(api.DataType), int64(r.rng(1, 3))
-		if set() {
-			p.Ref = []int{r.intn(len(vC08LCids))}
-		}
-	}
-	if wild {
-		switch r.intn(5) {
-		case 0:
-			p.Orig = []int{r.intn(len(vC08LAddrs))} // S19: the entry does not decode
-		case 1:
-			p.Name = []byte("bad\xffutf8") // cannot be stored
-		case 2:
-			p.Cid = -1 // an undefined CID does not decode
-		case 3:
-			p.Type = []uint64{0, 3, 1 << 40}[r.intn(3)]
-		default:
-			p.Rmin, p.Rmax = 1<<31+5, -(1 << 40)
-		}
-	}
-	return p
 }
 
 func vC08LGen(r *vRand) vC08LCase {
@@ -610,17 +252,6 @@ func vC08LRunSeq(out *vOut, c vC08LCase) {
 		out.count("logop:ends-undecodable")
 	}
 	out.add(fmt.Sprintf("CLogOp %s %s", cqList(entries), cqList(obs)), c, obs, decoded >= 2 && shrunk)
-}
-
-// b leaves empty a field that a has set (the situation in which a reused value shows through)
-func vC08LShrinks(a, b *api.Pin) bool {
-	ao, bo := &a.PinOptions, &b.PinOptions
-	return (ao.Name != "" && bo.Name == "") || (len(ao.Metadata) > 0 && len(bo.Metadata) == 0) || (!ao.ExpireAt.IsZero() && bo.ExpireAt.IsZero()) ||
-		(a.Reference != nil && b.Reference == nil) || (ao.ReplicationFactorMin != 0 && bo.ReplicationFactorMin == 0) ||
-		(ao.ReplicationFactorMax != 0 && bo.ReplicationFactorMax == 0) || (a.MaxDepth != 0 && b.MaxDepth == 0) ||
-		(ao.ShardSize != 0 && bo.ShardSize == 0) || (ao.PinUpdate.Defined() && !bo.PinUpdate.Defined()) ||
-		(len(a.Allocations) > 0 && len(b.Allocations) == 0) || (len(ao.UserAllocations) > 0 && len(bo.UserAllocations) == 0) ||
-		(ao.Mode != 0 && bo.Mode == 0)
 }
 
 func vC08LRunOnto(out *vOut, c vC08LCase) {
